@@ -15,6 +15,36 @@ CHECKS = {
          "Real Topology/BoundaryCondition code is executed on ~2e6 (quick) generated box/point-pair cases per run; every result is judged by an independent long-double brute-force minimum-image oracle plus lattice-congruence, antisymmetry and lattice-shift-invariance monitors, with sanitizers watching each execution. Held-on-observed, not a proof.",
          "Trusted: the brute-force oracle (125 images after fractional reduction), gcc sanitizers, generated inputs cover the quantifier only by sampling; ties/decision surfaces are don't-care.",
          "DESIGN.md §5 C02"),
+ "C01": ("exploration",
+         "runtime monitoring: long-double reference-model oracle (brute-force image unwrapping) + metamorphic monitors (lattice shift, rigid translation, convex hull, half-box threshold probes) on the real CGEngine/TopologyMap under ASan/UBSan; executable-level oracle re-computing csg_map outputs from the parsed input files",
+         "Real mapping code (library API and the csg_map executable over four format pairs, per-frame varying boxes) runs on ~3e5 (quick) generated bead-frames; each CG bead's position/velocity/force/mass is compared with an independent recomputation, metamorphic relations are observed on the real outputs, oversize beads must be rejected; sanitizers watch every run. Held-on-observed.",
+         "Trusted: the oracle's 125-image search and weight/force-weight reading recorded in DESIGN.md §5 C01; don't-care band around half the box height; written files compared on the box diagonal only (tilt factors are C08's subject).",
+         "DESIGN.md §5 C01"),
+ "C03": ("exploration",
+         "runtime monitoring: O(N^2)/O(N^3) brute-force reference (independent image search) vs the real NBListGrid/NBList/3-body searches with a counting match callback, exclusions through the real RebuildExclusions, under ASan/UBSan",
+         "The four neighbour-search classes run on generated configurations (0..300 beads, orthorhombic and reduced triclinic boxes, cutoffs giving 1,2,3..20 cells per direction, one/two/three-list variants, exclusions on/off); delivered pairs (multiset), stored pairs/triples, connection vectors and distances are compared with brute force; grid result = simple result. Held-on-observed.",
+         "Trusted: brute-force oracle; pairs within 1e-9*cutoff of the cutoff are don't-care; callback multiplicity judged for pairs only (DESIGN §5 C03).",
+         "DESIGN.md §5 C03"),
+ "C07": ("exploration",
+         "runtime monitoring: Richardson-extrapolated central differences of the reported value, gradient-sum, rigid-motion and periodic-image invariance monitors, D2F symmetry, tabulated-potential comparison; real library under ASan/UBSan",
+         "IBond/IAngle/IDihedral gradients, LJ126/LJG/CBSPL parameter derivatives and Cubic/Akima/Lin spline derivatives are evaluated on ~6e4 (quick) / 3e6 (thorough) generated geometries, parameter vectors and data sets and compared with numerical derivatives of the value the same object reports. Held-on-observed.",
+         "Trusted: finite-difference oracle with its own error estimate (cases whose estimate is too large are skipped and counted); singular geometries excluded by the margins in DESIGN §5 C07.",
+         "DESIGN.md §5 C07"),
+ "C11": ("exploration",
+         "runtime monitoring: independent Python (ElementTree) model of the documented option merge compared with the real OptionsHandler on every shipped calculator description; fault-injected negative inputs; XML print/load round-trip and as<T> literal-table monitors in-process under ASan/UBSan; votca_property executable",
+         "The real OptionsHandler::ProcessUserInput/CalculatorOptions run on all 27 shipped xtp calculators (9 linked sub-packages) x generated user inputs (random leaf subsets, list multiplicities, one injected fault per negative case) and the resolved trees / error texts are compared with the model; random property trees over a metacharacter alphabet are printed and re-loaded. Held-on-observed.",
+         "Trusted: the ElementTree merge model (names, per-name order and multiplicity, trimmed leaf values; cross-name sibling order and section text are not judged).",
+         "DESIGN.md §5 C11"),
+ "C12": ("exploration",
+         "runtime monitoring: relational spline/table monitors (knot values, continuity of value and slope, straight-line reproduction, linearity in ordinates, natural/periodic end conditions, fit reproduces in-space functions + normal-equation orthogonality, smoothing, save/load) on the real library under ASan/UBSan; csg_resample executable on generated tables",
+         "Lin/Cubic/Akima splines, Table and the csg_resample executable run on ~2.5e5 (quick) generated data sets and grids; every verdict is a relation between outputs of the real code (no stored numbers). Held-on-observed.",
+         "Trusted: tolerances scaled by data magnitude and grid spacing; periodic end conditions judged for interpolating splines (for fits only observed).",
+         "DESIGN.md §5 C12"),
+ "C19": ("exploration",
+         "runtime monitoring: the real Perl/shell post-processing scripts run (perl -w, csg_call/csg_table for part of the runs) on generated tables, outputs compared with closed-form reference formulas; integrate/differentiate inverse pair through csg_resample",
+         "640 (quick) / 16000 (thorough) script runs over update_ibi_pot, dist_boltzmann_invert, table_integrate/linearop/combine/scale/smooth/extrapolate, potential_shift with generated tables (zeros, undefined regions, all flags, kT range); point-wise formulas, flag semantics and discretisation bounds are judged. No sanitizer applies to the interpreters.",
+         "Trusted: closed-form oracle in python; values within the scripts' positivity-threshold band are don't-care; table_smooth judged by local-average relations (its help gives no formula).",
+         "DESIGN.md §5 C19"),
  "C05": ("exploration",
          "runtime monitoring: controlled scheduler over hook events (seeded uniform/PCT/run-to-block/starve schedules) with online monitors (exclusion, exactly-once frames, merge order, real-deadlock verdict) + free-running csg_stat/csg_reupdate under ThreadSanitizer and ASan with seeded delays and offline event-log checker; outputs compared with --nt 1",
          "The real CsgApplication (test subclass in-process; csg_stat and csg_reupdate as executables) is run under thousands of distinct thread interleavings chosen by a scheduler that owns every lock/unlock/start/join/reader/merge hook point; monitors over the event stream decide reader/merge exclusion, each-frame-once-in-order, merge order, join-before-EndEvaluate and deadlock (no enabled thread = verdict, not timeout); merged logs / output files are compared with the single-thread run; TSan watches the free-running executables. Interleavings are sampled, not enumerated.",
